@@ -19,12 +19,14 @@ use crypto_bigint::subtle::{
     CtOption,
 };
 use crypto_bigint::{
+    ArrayEncoding, Encoding, Int, RandomMod,
     Gcd, InvMod, Inverter, Odd, PrecomputeInverter, U192, U384, U512, U1024,
     AddMod, BitOps, BoxedUint, Checked, CheckedAdd, CheckedDiv, CheckedMul, CheckedSub, ConstChoice, ConstCtOption,
     ConstantTimeSelect, DivRemLimb, DivVartime, Integer, Limb, MulMod, NegMod, NonZero, Reciprocal, RemLimb,
     ShlVartime, ShrVartime, SquareRoot, SubMod, U64, U128, U256, Uint, WideningMul, Wrapping, WrappingAdd, WrappingMul,
     WrappingNeg, WrappingShl, WrappingShr, WrappingSub, Zero,
 };
+use rand_core::{RngCore, TryRngCore};
 use std::panic::{AssertUnwindSafe, catch_unwind};
 
 /// evaluate one route; a panic inside it is the result `panic`
@@ -621,6 +623,161 @@ fn fx<const N: usize>(op: &str, a: &[&str]) -> Option<String> {
             let (x, c, bx) = (arg!(ux(0)), arg!(limb(a[1])), arg!(bxv(0)));
             routes![u(&x.neg_mod_special(c)), b(&bx.neg_mod_special(c))]
         }
+
+        // ---------------------------------------------------------------- C13 / C14: Int<N>
+        ("c15.i.add", 2) => {
+            let (x, y) = (arg!(a.first().and_then(|s| int::<N>(s))), arg!(a.get(1).and_then(|s| int::<N>(s))));
+            let i = |v: &Int<N>| ihex(v);
+            routes![
+                i(&x.wrapping_add(&y)),
+                i(&WrappingAdd::wrapping_add(&x, &y)),
+                i(&(Wrapping(x) + Wrapping(y)).0),
+                i(&(Wrapping(x) + &Wrapping(y)).0),
+                i(&(&Wrapping(x) + Wrapping(y)).0),
+                i(&(&Wrapping(x) + &Wrapping(y)).0),
+                { let mut w = Wrapping(x); w += Wrapping(y); i(&w.0) },
+                { let mut w = Wrapping(x); w += &Wrapping(y); i(&w.0) },
+                i(&x.overflowing_add(&y).0),
+            ]
+        }
+        ("c15.i.sub", 2) => {
+            let (x, y) = (arg!(a.first().and_then(|s| int::<N>(s))), arg!(a.get(1).and_then(|s| int::<N>(s))));
+            let i = |v: &Int<N>| ihex(v);
+            routes![
+                i(&WrappingSub::wrapping_sub(&x, &y)),
+                i(&(Wrapping(x) - Wrapping(y)).0),
+                i(&(Wrapping(x) - &Wrapping(y)).0),
+                i(&(&Wrapping(x) - Wrapping(y)).0),
+                i(&(&Wrapping(x) - &Wrapping(y)).0),
+                { let mut w = Wrapping(x); w -= Wrapping(y); i(&w.0) },
+                { let mut w = Wrapping(x); w -= &Wrapping(y); i(&w.0) },
+            ]
+        }
+        ("c15.i.cadd", 2) => {
+            let (x, y) = (arg!(a.first().and_then(|s| int::<N>(s))), arg!(a.get(1).and_then(|s| int::<N>(s))));
+            let i = |v: &Int<N>| ihex(v);
+            let oi = |o: Option<Int<N>>| o.map(|v| ihex(&v)).unwrap_or("none".into());
+            let (cx, cy) = (Checked::new(x), Checked::new(y));
+            routes![
+                oi(x.checked_add(&y).into()),
+                oi(CheckedAdd::checked_add(&x, &y).into()),
+                oi((cx + cy).0.into()),
+                oi((cx + &cy).0.into()),
+                oi((&cx + cy).0.into()),
+                oi((&cx + &cy).0.into()),
+                { let mut w = cx; w += cy; oi(w.0.into()) },
+                { let mut w = cx; w += &cy; oi(w.0.into()) },
+                i(&(x + y)),
+                i(&(x + &y)),
+                { let mut t = x; t += y; i(&t) },
+                { let mut t = x; t += &y; i(&t) },
+            ]
+        }
+        ("c15.i.csub", 2) => {
+            let (x, y) = (arg!(a.first().and_then(|s| int::<N>(s))), arg!(a.get(1).and_then(|s| int::<N>(s))));
+            let i = |v: &Int<N>| ihex(v);
+            let oi = |o: Option<Int<N>>| o.map(|v| ihex(&v)).unwrap_or("none".into());
+            let (cx, cy) = (Checked::new(x), Checked::new(y));
+            routes![
+                oi(CheckedSub::checked_sub(&x, &y).into()),
+                oi((cx - cy).0.into()),
+                oi((cx - &cy).0.into()),
+                oi((&cx - cy).0.into()),
+                oi((&cx - &cy).0.into()),
+                { let mut w = cx; w -= cy; oi(w.0.into()) },
+                { let mut w = cx; w -= &cy; oi(w.0.into()) },
+                i(&(x - y)),
+                i(&(x - &y)),
+            ]
+        }
+        ("c15.i.cmul", 2) => {
+            let (x, y) = (arg!(a.first().and_then(|s| int::<N>(s))), arg!(a.get(1).and_then(|s| int::<N>(s))));
+            let i = |v: &Int<N>| ihex(v);
+            let oi = |o: Option<Int<N>>| o.map(|v| ihex(&v)).unwrap_or("none".into());
+            let (cx, cy) = (Checked::new(x), Checked::new(y));
+            routes![
+                oi(CheckedMul::checked_mul(&x, &y).into()),
+                oi((cx * cy).0.into()),
+                oi((cx * &cy).0.into()),
+                oi((&cx * cy).0.into()),
+                oi((&cx * &cy).0.into()),
+                { let mut w = cx; w *= cy; oi(w.0.into()) },
+                { let mut w = cx; w *= &cy; oi(w.0.into()) },
+                i(&(x * y)),
+                i(&(x * &y)),
+                i(&(&x * y)),
+                i(&(&x * &y)),
+            ]
+        }
+        ("c15.i.neg", 1) => {
+            let x = arg!(a.first().and_then(|s| int::<N>(s)));
+            let i = |v: &Int<N>| ihex(v);
+            routes![
+                i(&x.wrapping_neg()),
+                i(&x.overflowing_neg().0),
+                i(&x.wrapping_neg_if(ConstChoice::TRUE)),
+                i(&Int::<N>::ZERO.wrapping_sub(&x)),
+            ]
+        }
+        ("c15.i.cmp", 2) => {
+            let (x, y) = (arg!(a.first().and_then(|s| int::<N>(s))), arg!(a.get(1).and_then(|s| int::<N>(s))));
+            let from_ct = |lt: Choice, gt: Choice| -> String {
+                if bool::from(lt) { "lt".into() } else if bool::from(gt) { "gt".into() } else { "eq".into() }
+            };
+            routes![
+                ord(x.cmp(&y)),
+                ord(x.partial_cmp(&y).unwrap()),
+                ord(x.cmp_vartime(&y)),
+                ord(y.cmp(&x).reverse()),
+                from_ct(x.ct_lt(&y), x.ct_gt(&y)),
+            ]
+        }
+        ("c15.i.shr", 2) => {
+            let (x, s) = (arg!(a.first().and_then(|s| int::<N>(s))), arg!(dec32(a[1])));
+            let i = |v: &Int<N>| ihex(v);
+            routes![
+                i(&x.shr(s)),
+                i(&x.shr_vartime(s)),
+                i(&(x >> s)),
+                i(&(&x >> s)),
+                { let mut y = x; y >>= s; i(&y) },
+                i(&(x >> (s as i32))),
+                i(&(&x >> (s as usize))),
+            ]
+        }
+        ("c15.i.wshr", 2) => {
+            let (x, s) = (arg!(a.first().and_then(|s| int::<N>(s))), arg!(dec32(a[1])));
+            let i = |v: &Int<N>| ihex(v);
+            routes![
+                i(&x.wrapping_shr(s)),
+                i(&x.wrapping_shr_vartime(s)),
+                i(&WrappingShr::wrapping_shr(&x, s)),
+                i(&ShrVartime::wrapping_shr_vartime(&x, s)),
+            ]
+        }
+        // signed division, d != 0: quotient option and remainder
+        ("c15.i.div", 2) => {
+            let (x, y) = (arg!(a.first().and_then(|s| int::<N>(s))), arg!(a.get(1).and_then(|s| int::<N>(s))));
+            let d: NonZero<Int<N>> = arg!(Option::from(y.to_nz()));
+            let i = |v: &Int<N>| ihex(v);
+            let oi = |o: Option<Int<N>>| o.map(|v| ihex(&v)).unwrap_or("none".into());
+            let qr = |q: Option<Int<N>>, r: Int<N>| format!("{} {}", q.map(|v| ihex(&v)).unwrap_or("none".into()), ihex(&r));
+            routes![
+                { let (q, r) = x.checked_div_rem(&d); qr(q.into(), r) },
+                { let (q, r) = x.checked_div_rem_vartime(&d); qr(q.into(), r) },
+                qr(x.checked_div(&y).into(), x.rem(&d)),
+                qr(x.checked_div_vartime(&y).into(), x.rem_vartime(&d)),
+                qr(CheckedDiv::checked_div(&x, &y).into(), x % d),
+                qr((x / d).into(), x % &d),
+                qr((&x / &d).into(), &x % &d),
+                qr((x / &d).into(), &x % d),
+                qr((Checked::new(x) / Checked::new(y)).0.into(), { let mut t = x; t %= d; t }),
+                i(&DivVartime::div_vartime(&x, &d)),
+                { let mut t = x; t /= d; i(&t) },
+                i(&(Wrapping(x) / d).0),
+                oi(Option::<Int<N>>::from(x.checked_div(&y))),
+            ]
+        }
         // ---------------------------------------------------------------- C20: square root
         ("c15.sqrt", 1) => {
             let (x, bx) = (arg!(ux(0)), arg!(bxv(0)));
@@ -1060,6 +1217,84 @@ fn bm(op: &str, a: &[&str]) -> Option<String> {
     })
 }
 
+
+// ------------------------------------------------------------------------------------------------
+// byte-stream RNG fixtures (as in ops/c19.rs): every sampler sees the same bytes, consumption is printed
+// ------------------------------------------------------------------------------------------------
+
+#[derive(Debug)]
+pub struct Exhausted;
+impl core::fmt::Display for Exhausted {
+    fn fmt(&self, f: &mut core::fmt::Formatter<'_>) -> core::fmt::Result {
+        write!(f, "stream exhausted")
+    }
+}
+struct Stream {
+    buf: Vec<u8>,
+    pos: usize,
+    exhausted: bool,
+}
+impl Stream {
+    fn take(&mut self, dst: &mut [u8]) -> Result<(), Exhausted> {
+        if self.buf.len() - self.pos < dst.len() {
+            self.exhausted = true;
+            return Err(Exhausted);
+        }
+        dst.copy_from_slice(&self.buf[self.pos..self.pos + dst.len()]);
+        self.pos += dst.len();
+        Ok(())
+    }
+}
+struct TryStream(Stream);
+impl TryRngCore for TryStream {
+    type Error = Exhausted;
+    fn try_next_u32(&mut self) -> Result<u32, Exhausted> {
+        let mut b = [0u8; 4];
+        self.0.take(&mut b)?;
+        Ok(u32::from_le_bytes(b))
+    }
+    fn try_next_u64(&mut self) -> Result<u64, Exhausted> {
+        let mut b = [0u8; 8];
+        self.0.take(&mut b)?;
+        Ok(u64::from_le_bytes(b))
+    }
+    fn try_fill_bytes(&mut self, dst: &mut [u8]) -> Result<(), Exhausted> {
+        self.0.take(dst)
+    }
+}
+struct PanicStream(Stream);
+impl RngCore for PanicStream {
+    fn next_u32(&mut self) -> u32 {
+        let mut b = [0u8; 4];
+        self.0.take(&mut b).expect("stream exhausted");
+        u32::from_le_bytes(b)
+    }
+    fn next_u64(&mut self) -> u64 {
+        let mut b = [0u8; 8];
+        self.0.take(&mut b).expect("stream exhausted");
+        u64::from_le_bytes(b)
+    }
+    fn fill_bytes(&mut self, dst: &mut [u8]) {
+        self.0.take(dst).expect("stream exhausted")
+    }
+}
+fn infallible<T>(stream: Vec<u8>, f: impl FnOnce(&mut PanicStream) -> T, show: impl Fn(&T) -> String) -> String {
+    let mut rng = PanicStream(Stream { buf: stream, pos: 0, exhausted: false });
+    match catch_unwind(AssertUnwindSafe(|| f(&mut rng))) {
+        Ok(v) => format!("{} {}", show(&v), rng.0.pos),
+        Err(e) => {
+            if rng.0.exhausted { format!("exhausted {}", rng.0.pos) } else { std::panic::resume_unwind(e) }
+        }
+    }
+}
+fn fallible<T>(stream: Vec<u8>, f: impl FnOnce(&mut TryStream) -> Result<T, Exhausted>, show: impl Fn(&T) -> String) -> String {
+    let mut rng = TryStream(Stream { buf: stream, pos: 0, exhausted: false });
+    match f(&mut rng) {
+        Ok(v) => format!("{} {}", show(&v), rng.0.pos),
+        Err(Exhausted) => format!("err:RandCore {}", rng.0.pos),
+    }
+}
+
 // ------------------------------------------------------------------------------------------------
 // C10: inversion and gcd (concrete aliases: `PrecomputeInverter` is implemented per alias)
 // ------------------------------------------------------------------------------------------------
@@ -1100,6 +1335,72 @@ macro_rules! impl_c10 {
                         optb(binv.invert_vartime(&bx)),
                         optb(bx.inv_mod(&bmod)),
                         optb(InvMod::inv_mod(&bx, &bmod)),
+                    ]
+                }
+
+                // C16: encodings (the `Encoding` impls exist per alias)
+                ("c15.enc", [x]) => {
+                    let (x, bx) = (arg!(uint::<N>(x)), arg!(boxed(x, N)));
+                    let rev = |mut v: Vec<u8>| { v.reverse(); v };
+                    routes![
+                        bytes_tok(Encoding::to_be_bytes(&x).as_ref()),
+                        bytes_tok(&rev(AsRef::<[u8]>::as_ref(&Encoding::to_le_bytes(&x)).to_vec())),
+                        bytes_tok(ArrayEncoding::to_be_byte_array(&x).as_slice()),
+                        bytes_tok(&rev(ArrayEncoding::to_le_byte_array(&x).as_slice().to_vec())),
+                        bytes_tok(&bx.to_be_bytes()),
+                        bytes_tok(&rev(bx.to_le_bytes().to_vec())),
+                        format!("{:x}", x),
+                        format!("{:X}", x).to_lowercase(),
+                        format!("{:x}", bx),
+                        format!("{:X}", bx).to_lowercase(),
+                        format!("{:x}", Wrapping(x)),
+                    ]
+                }
+                // decode `8N` bytes given big endian
+                ("c15.dec", [bs]) => {
+                    let be = arg!(bytes(bs));
+                    if be.len() != 8 * N { return Some(BAD.into()); }
+                    let le: Vec<u8> = be.iter().rev().copied().collect();
+                    let hex: String = be.iter().map(|b| format!("{b:02x}")).collect();
+                    let lehex: String = le.iter().map(|b| format!("{b:02x}")).collect();
+                    let rb = |r: Result<BoxedUint, crypto_bigint::DecodeError>| match r { Ok(v) => bhexlen(&v), Err(e) => format!("err:{e:?}") };
+                    routes![
+                        uhex(&U::from_be_slice(&be)),
+                        uhex(&U::from_le_slice(&le)),
+                        uhex(&<U as Encoding>::from_be_bytes(be.as_slice().try_into().unwrap())),
+                        uhex(&<U as Encoding>::from_le_bytes(le.as_slice().try_into().unwrap())),
+                        uhex(&U::from_be_hex(&hex)),
+                        uhex(&U::from_le_hex(&lehex)),
+                        uhex(&<U as ArrayEncoding>::from_be_byte_array(be.as_slice().try_into().unwrap())),
+                        uhex(&<U as ArrayEncoding>::from_le_byte_array(le.as_slice().try_into().unwrap())),
+                        rb(BoxedUint::from_be_slice(&be, U::BITS)),
+                        rb(BoxedUint::from_le_slice(&le, U::BITS)),
+                    ]
+                }
+                // C17: radix strings, fixed vs boxed, and the round trip through both parsers
+                ("c15.radix", [x, r]) => {
+                    let (x, bx, r) = (arg!(uint::<N>(x)), arg!(boxed(x, N)), arg!(dec32(r)));
+                    let s = x.to_string_radix_vartime(r);
+                    let tok = |t: &str| bytes_tok(t.as_bytes());
+                    routes![
+                        tok(&x.to_string_radix_vartime(r)),
+                        tok(&bx.to_string_radix_vartime(r)),
+                        U::from_str_radix_vartime(&s, r).map(|v| uhex(&v)).unwrap_or_else(|e| format!("err:{e:?}")),
+                        BoxedUint::from_str_radix_with_precision_vartime(&s, r, U::BITS).map(|v| bhexlen(&v)).unwrap_or_else(|e| format!("err:{e:?}")),
+                    ]
+                }
+                // C19: the same byte stream drives the fixed and the boxed sampler
+                ("c15.rand", [m, st]) => {
+                    let (m, bm) = (arg!(uint::<N>(m)), arg!(boxed(m, N)));
+                    let nz = arg!(nzu(m));
+                    let bnz = arg!(nzb(&bm));
+                    let st = arg!(bytes(st));
+                    routes![
+                        infallible(st.clone(), |r| U::random_mod(r, &nz), |v| uhex(v)),
+                        infallible(st.clone(), |r| <U as RandomMod>::random_mod(r, &nz), |v| uhex(v)),
+                        fallible(st.clone(), |r| U::try_random_mod(r, &nz), |v| uhex(v)),
+                        infallible(st.clone(), |r| BoxedUint::random_mod(r, &bnz), |v| bhexlen(v)),
+                        fallible(st.clone(), |r| BoxedUint::try_random_mod(r, &bnz), |v| bhexlen(v)),
                     ]
                 }
                 ("c15.gcd", [x, y]) => {
@@ -1176,7 +1477,7 @@ pub fn dispatch(op: &str, a: &[&str]) -> Option<String> {
     if op == "c15.mul_mod" {
         return mul_mod(n, rest);
     }
-    if matches!(op, "c15.inv_mod2k" | "c15.inv_odd_mod" | "c15.gcd") {
+    if matches!(op, "c15.inv_mod2k" | "c15.inv_odd_mod" | "c15.gcd" | "c15.enc" | "c15.dec" | "c15.radix" | "c15.rand") {
         return c10(n, op, rest);
     }
     with_w!(n, fx, op, rest)
